@@ -63,6 +63,15 @@ func Get(name string) *Actor {
 	return a
 }
 
+// ByName returns the actor for a scenario key name: names of the form e<digit>
+// are ecdsa-p256 keys, everything else ed25519.
+func ByName(name string) *Actor {
+	if len(name) >= 2 && name[0] == 'e' && name[1] >= '0' && name[1] <= '9' {
+		return GetECDSA(name)
+	}
+	return Get(name)
+}
+
 // GetECDSA returns a deterministic ecdsa-p256 actor.
 func GetECDSA(name string) *Actor {
 	cacheMu.Lock()
@@ -158,7 +167,7 @@ func (a *Actor) KeyIDErr() (string, error) { return a.KeyID, nil }
 type DSSE struct{ A *Actor }
 
 func (d DSSE) Sign(ctx context.Context, data []byte) ([]byte, error) { return d.A.Sign(ctx, data) }
-func (d DSSE) KeyID() (string, error)                                 { return d.A.KeyID, nil }
+func (d DSSE) KeyID() (string, error)                                { return d.A.KeyID, nil }
 func (d DSSE) Public() crypto.PublicKey {
 	return d.A.pub.(ssh.CryptoPublicKey).CryptoPublicKey()
 }
